@@ -53,10 +53,13 @@ Definition wall_of (d : D4) (t : T4) : Z :=
 Definition localtime_z (off : Z -> Z) (e : Z) : D4 * T4 := split_wall (wall off e).
 
 (* time.mktime with tm_isdst = -1 in a zone with the two offsets o1 (standard) and o2 (daylight):
-   the instant whose local reading is the given wall clock.  glibc's choices, observed on every half
-   hour of sampled years in both zones of the harness: a wall clock shown twice (the repeated hour)
-   is read as daylight time (the earlier instant); one that no instant shows (the skipped hour) is
-   read as standard time (= the same reading one hour later on the daylight clock) *)
+   the instant whose local reading is the given wall clock.  Where exactly one instant has that reading
+   (everywhere except two hours a year) this is fully determined.  A wall clock shown twice (the
+   repeated hour) is read here as daylight time, one that no instant shows (the skipped hour) as
+   standard time: that is what glibc answers on every full and half hour, but inside the repeated hour
+   its choice varies with the seconds (02:35:58 on 2068-04-01 AEST is read as standard time), so those
+   two hours of the change days are outside the correspondence (ASSUMPTIONS: no entry lies in them) and
+   the theorems claim only what holds for either choice: SOME instant with the requested reading *)
 Definition mktime_z (off : Z -> Z) (o1 o2 : Z) (w : Z) : Z :=
   if off (w - o2) =? o2 then w - o2 else w - o1.
 
